@@ -65,6 +65,32 @@ def first_diff(a, b):
     return "length %d vs %d" % (len(a), len(b))
 
 
+def inject_fk_failures(p, rng):
+    cfg = p["cfg"]
+    ns = (cfg.get("namespaces") or [None])[0]
+    locales = gen.effective_locales(cfg)
+
+    def ref(path):
+        return {"k": "tmpl", "segs": [{"s": "text", "v": "r "}, {"s": "fk", "ns": ns, "path": path, "args": None}]}
+    victims = [locales[0]] + ([rng.choice(locales[1:])] if len(locales) > 1 and rng.random() < 0.6 else [])
+    kinds = rng.sample(["missing2", "cycle2", "cycle3", "missing+cycle"], rng.randint(1, 2))
+    for l in locales:
+        tree = p["data"][(ns, l)]
+        bad = l in victims
+        plain = {"k": "lit", "ty": "str", "v": "ok"}
+        for kind in kinds:
+            if kind in ("missing2", "missing+cycle"):
+                for name, target in (("aa_bad", "zz_missing_1"), ("mm_bad", "aa_missing_2"), ("zz_bad", "mm_missing_3")):
+                    tree.append([name + kind[:2], ref([target]) if bad else dict(plain)])
+            if kind in ("cycle2", "missing+cycle"):
+                tree.append(["cyc_b" + kind[:2], ref(["cyc_a" + kind[:2]]) if bad else dict(plain)])
+                tree.append(["cyc_a" + kind[:2], ref(["cyc_b" + kind[:2]]) if bad else dict(plain)])
+            if kind == "cycle3":
+                for a, b in (("tri_m", "tri_z"), ("tri_z", "tri_a"), ("tri_a", "tri_m")):
+                    tree.append([a, ref([b]) if bad else dict(plain)])
+        rng.shuffle(tree)
+
+
 def run(tier, seed, replay=None):
     res = Result("C10", tier, seed, RULE)
     rng = rng_for(seed, "C10")
@@ -75,6 +101,11 @@ def run(tier, seed, replay=None):
     # a plural-heavy quarter: several plural groups per level (many emit unused-form diagnostics, whose order is observable)
     pcfg = GenCfg(p_fk=0.1, p_plural=0.5, p_range=0.05, p_surplus=0.3, n_keys=(5, 10), locale_pool=["en", "fr", "ja", "de", "ru", "ar"])
     projs += [projects.gen_valid_project(rng, pcfg) for _ in range(n // 4)]
+    # projects that fail in the foreign-key resolution phase in two or more independent places (missing targets, cycles):
+    # which failure is reported must not depend on the order of the keys in the files either
+    for p in [copy.deepcopy(q) for q in rng.sample(projs, max(6, n // 8))]:
+        inject_fk_failures(p, rng)
+        projs.append(p)
     # reference materialisation (JSON), keeping the plain data so that variants hold the same logical content
     ref_dirs, plains = workload.materialise(projs, "c10-ref", seed=seed)
     ref = workload.run_projects(ref_dirs, "json")
